@@ -78,16 +78,56 @@ def build_srcgen():
     return binp, out
 
 
+def repo_fingerprint():
+    """hash of every non-test .go file (and go.mod) of the repository working tree"""
+    h = hashlib.sha1()
+    for root, dirs, files in os.walk(REPO):
+        dirs[:] = sorted(d for d in dirs if d not in (".git", "node_modules"))
+        for f in sorted(files):
+            if (f.endswith(".go") and not f.endswith("_test.go")) or f == "go.mod":
+                fp = os.path.join(root, f)
+                h.update(os.path.relpath(fp, REPO).encode())
+                try:
+                    h.update(open(fp, "rb").read())
+                except OSError:
+                    pass
+    return h.hexdigest()
+
+
+_FP = {}
+
+
 def srcgen(pid):
-    """returns (ok, message)"""
+    """returns (ok, message). Skipped when neither the repository's Go sources, the spec nor the
+    translator changed since Gen/Cnn.v was last generated (the translator is deterministic)."""
     spec = os.path.join(ROOT, "props", pid, "srcgen.json")
     outv = os.path.join(COQ, "theories", "Gen", pid + ".v")
     if not os.path.exists(spec):
         return True, "no srcgen spec"
     binp, _ = build_srcgen()
-    rc, out, _ = run([binp, "-repo", REPO, "-spec", spec, "-out", outv], timeout=300)
+    if "repo" not in _FP:
+        _FP["repo"] = repo_fingerprint()
+    h = hashlib.sha1()
+    h.update(_FP["repo"].encode())
+    h.update(open(spec, "rb").read())
+    h.update(open(binp, "rb").read())
+    fp = h.hexdigest()
+    fpfile = os.path.join(WORK, pid, "srcgen.fp")
+    os.makedirs(os.path.dirname(fpfile), exist_ok=True)
+    if os.path.exists(outv) and os.path.exists(fpfile):
+        try:
+            d = json.load(open(fpfile))
+            if d.get("fp") == fp and d.get("out") == hashlib.sha1(open(outv, "rb").read()).hexdigest():
+                return True, "srcgen: sources unchanged, %s is current" % os.path.basename(outv)
+        except Exception:
+            pass
+    rc, out, _ = run([binp, "-repo", REPO, "-spec", spec, "-out", outv], cwd=REPO, env=GOENV, timeout=900)
     if rc != 0:
+        if os.path.exists(fpfile):
+            os.remove(fpfile)
         return False, out.strip()
+    with open(fpfile, "w") as f:
+        json.dump({"fp": fp, "out": hashlib.sha1(open(outv, "rb").read()).hexdigest()}, f)
     return True, out.strip()
 
 
